@@ -347,6 +347,9 @@ CORPUS = {
     # one state holds BOTH a conflict precedence cannot decide ('?' has none) and conflicts where precedence must choose the
     # reduction: the order in which the lookaheads of a state are visited must not matter
     "mixed_conflicts": "%token NUM\n%left '+' '-'\n%left '*'\n%start e\n%%\ne : e '?' e | e '+' e | e '-' e | e '*' e | NUM ;\n%%\n",
+    # an item set that is a proper PREFIX of an earlier, longer state's sorted item list, where the extra item's rule
+    # starts further back on the stack (a wrong merge accepts `v a b c`)
+    "prefix_of_earlier_longer": "%token A B C U V\n%start S\n%%\nX : A B ;\nW : U A B C | U X ;\nS : W | V X ;\n%%\n",
     # NQLALR-separating family (Bermudez/Logothetis style)
     "nqlalr": "%token A B C D G\n%start S\n%%\nS : A X C | A Y D | B X D | B Y C | G X G ;\nX : Z ;\nY : Z ;\nZ : ;\n%%\n",
 }
